@@ -57,6 +57,8 @@ def _vals(X, A, arr, spec):
 def _idx(i):
     if i[0] == "int":
         return i[1]
+    if i[0] == "bool":          # a bool is an int: list index 1 / 0
+        return bool(i[1])
     if i[0] == "slice":
         return slice(i[1], i[2], i[3])
     return {"str": "1", "float": 1.0, "none": None}[i[1]]
@@ -88,7 +90,7 @@ def _apply(obj, op, X, A, is_list):
         del obj[_idx(op["idx"])]
         return ["none"]
     if k == "insert":
-        obj.insert(op["i"] if op["i"] != "bad" else "1", val(op["v"]))
+        obj.insert((bool(op["i"]) if op.get("as_bool") and op["i"] in (0, 1) else op["i"]) if op["i"] != "bad" else "1", val(op["v"]))
         return ["none"]
     if k == "append":
         obj.append(val(op["v"]))
@@ -107,7 +109,7 @@ def _apply(obj, op, X, A, is_list):
     if k == "pop":
         if op.get("bad"):
             return ["val", conv(obj.pop("1"))]
-        r = obj.pop() if op["i"] is None else obj.pop(op["i"])
+        r = obj.pop() if op["i"] is None else obj.pop(bool(op["i"]) if op.get("as_bool") and op["i"] in (0, 1) else op["i"])
         return ["val", conv(r)]
     if k == "remove":
         obj.remove(val(op["v"]))
@@ -196,6 +198,8 @@ def _valsc(spec):
 def _idxc(i):
     if i[0] == "int":
         return "(IInt %s)" % vf.zc(i[1])
+    if i[0] == "bool":
+        return "(IInt %d)" % int(i[1])
     if i[0] == "slice":
         return "(ISlice %s %s %s)" % (vf.optc(i[1]), vf.optc(i[2]), vf.optc(i[3]))
     return "IBad"
@@ -300,6 +304,8 @@ def _rand_op(rng, n, pool):
     v = lambda: _elem(rng, pool) if rng.random() < 0.92 else ["bad", rng.choice(["str", "int", "none", "other"])]
     if k in ("get", "del"):
         m = rng.random()
+        if m < 0.06:
+            return {"op": k, "idx": ["bool", rng.random() < 0.5]}
         if m < 0.45:
             return {"op": k, "idx": ["int", rng.randrange(-n - 2, n + 3)]}
         if m < 0.93:
@@ -307,7 +313,7 @@ def _rand_op(rng, n, pool):
         return {"op": k, "idx": ["bad", rng.choice(["str", "float", "none"])]}
     if k == "set":
         m = rng.random()
-        idx = ["int", rng.randrange(-n - 2, n + 3)] if m < 0.85 else ["bad", "str"] if m < 0.93 else ["slice", None, None, None]
+        idx = ["bool", rng.random() < 0.5] if m < 0.08 else ["int", rng.randrange(-n - 2, n + 3)] if m < 0.85 else ["bad", "str"] if m < 0.93 else ["slice", None, None, None]
         return {"op": k, "idx": idx, "v": v()}
     if k == "setslice":
         kind = rng.choice(["list", "list", "list", "tuple", "gen", "array", "self", "notiter", "none"])
